@@ -248,6 +248,95 @@ func (g *FG) PathTo(start []ssa.Instruction, incl bool, stop, goal func(ssa.Inst
 	return nil
 }
 
+// PathToE is PathTo with an additional edge filter: CFG edges for which skip
+// returns true are not followed. It is used to rule out infeasible paths when
+// the same unmodified condition is tested twice.
+func (g *FG) PathToE(start []ssa.Instruction, incl bool, stop, goal func(ssa.Instruction) bool, skip func(from *ssa.BasicBlock, k int) bool) []ssa.Instruction {
+	parent := map[ssa.Instruction]ssa.Instruction{}
+	seen := map[ssa.Instruction]bool{}
+	var queue []ssa.Instruction
+	push := func(i, from ssa.Instruction) {
+		if seen[i] || (stop != nil && stop(i)) {
+			return
+		}
+		seen[i] = true
+		parent[i] = from
+		queue = append(queue, i)
+	}
+	succs := func(i ssa.Instruction) []ssa.Instruction {
+		b := i.Block()
+		k := g.idx[i]
+		if k+1 < len(b.Instrs) {
+			return []ssa.Instruction{b.Instrs[k+1]}
+		}
+		var out []ssa.Instruction
+		for n, s := range b.Succs {
+			if skip != nil && skip(b, n) {
+				continue
+			}
+			if len(s.Instrs) > 0 {
+				out = append(out, s.Instrs[0])
+			}
+		}
+		return out
+	}
+	for _, s := range start {
+		if incl {
+			push(s, nil)
+		} else {
+			for _, n := range succs(s) {
+				push(n, nil)
+			}
+		}
+	}
+	for len(queue) > 0 {
+		i := queue[0]
+		queue = queue[1:]
+		if goal(i) {
+			var path []ssa.Instruction
+			for x := i; x != nil; x = parent[x] {
+				path = append([]ssa.Instruction{x}, path...)
+			}
+			return path
+		}
+		for _, n := range succs(i) {
+			push(n, i)
+		}
+	}
+	return nil
+}
+
+// contradictsField returns an edge filter that drops the edges on which a
+// branch on a load of struct field `field` takes the polarity opposite to
+// `want` (valid while the field is not stored to in the function).
+func contradictsField(f *ssa.Function, field string, want bool) func(*ssa.BasicBlock, int) bool {
+	for _, in := range instrs(f) {
+		if st, ok := in.(*ssa.Store); ok {
+			if fa, ok := st.Addr.(*ssa.FieldAddr); ok && fieldObj(fa).Name() == field {
+				_ = st // the field is assigned here; only branches after the last store are correlated
+			}
+		}
+	}
+	return func(b *ssa.BasicBlock, k int) bool {
+		if len(b.Instrs) == 0 {
+			return false
+		}
+		iff, ok := b.Instrs[len(b.Instrs)-1].(*ssa.If)
+		if !ok {
+			return false
+		}
+		ld, ok := iff.Cond.(*ssa.UnOp)
+		if !ok || ld.Op != token.MUL {
+			return false
+		}
+		fa, ok := ld.X.(*ssa.FieldAddr)
+		if !ok || fieldObj(fa).Name() != field {
+			return false
+		}
+		return (k == 0) != want
+	}
+}
+
 // blockStart returns the first instruction of a block as a start set.
 func blockStart(b *ssa.BasicBlock) []ssa.Instruction {
 	if len(b.Instrs) == 0 {
